@@ -99,6 +99,36 @@ def check(ctx):
                msg="buildProtocol stores %s for the address whether or not it already has one: on a reconnection the messages %s are "
                    "dropped - accepted, never sent, their Deferreds never fire" % (
                        show(e.a["val"]) if e is not None else "", "held back in the queue" if reg == Q else "in flight"))
+    # "accepted and held back, never rejected or dropped": the queue must take any number of messages.  A deque built with a maxlen
+    # discards from the other end when it is full - silently: what publish() appended evicts the oldest message held back
+    import ast as _ast
+    bounded = []
+    nq = 0
+    for mod in a.prog.modules.values():
+        if not mod.name.startswith("mqtt.client"):
+            continue
+        fns = list(mod.funcs.values()) + [m for c in mod.classes.values() for m in c.methods.values()]
+        for fn in fns:
+            if not any(isinstance(x, _ast.Attribute) and x.attr == Q for x in _ast.walk(fn.node)):
+                continue
+            for x in _ast.walk(fn.node):
+                if isinstance(x, _ast.Call) and (getattr(x.func, "id", None) == "deque" or getattr(x.func, "attr", None) == "deque"):
+                    nq += 1
+                    ml = [k.value for k in x.keywords if k.arg == "maxlen"] + list(x.args[1:2])
+                    if ml and not (isinstance(ml[0], _ast.Constant) and ml[0].value is None):
+                        bounded.append((fn, x))
+    for fn, x in bounded:
+        ctx.ob("W-FIFO", "the queue of held-back messages is unbounded", False, where="%s:%d" % (fn.file, x.lineno), function=fn.qual,
+               construct="%s/bounded-queue" % fn.qual,
+               msg="the container of %s is created as %s: a full deque with maxlen drops an element from the opposite end on every append - "
+                   "a message that publish() accepted is discarded unsent, its Deferred never fires" % (Q, _ast.unparse(x)))
+    if not bounded:
+        ctx.ob("W-FIFO", "the queue of held-back messages is unbounded (%d deque constructions)" % nq, True, where="src/mqtt/client/factory.py",
+               construct="queue/unbounded", nontrivial=False)
+    # (the floor counts mentions of deque in the factory module - a refactoring may hand the constructor over uncalled, as a slot maker)
+    fmod = a.prog.modules.get("mqtt.client.factory")
+    nref = sum(1 for x in _ast.walk(fmod.tree) if (isinstance(x, _ast.Name) and x.id == "deque") or (isinstance(x, _ast.Attribute) and x.attr == "deque")) if fmod else 0
+    ctx.floor("mentions of deque in the factory module", nref, 1)
     nloops = 0
     for cls in classes:
         cat = catalogue(a, cls)
